@@ -14,6 +14,8 @@ type Scenario struct {
 	ExpectCrash bool
 	// MaxSteps per execution (0: default).
 	MaxSteps int
+	// StepLimitFails: not coming to rest within MaxSteps is a violation.
+	StepLimitFails bool
 	// Flags that must be hit by at least one execution (vacuity guard).
 	MustFlag []string
 	// Doc is a one-line description used in evidence samples.
